@@ -222,6 +222,12 @@ class Exec:
             return ListV(l.items + r.items)
         if isinstance(op, ast.Add) and isinstance(l, TupV) and isinstance(r, TupV):
             return TupV(l.items + r.items)
+        if isinstance(op, ast.Add) and isinstance(l, SeqV) and isinstance(r, SeqV):
+            # list concatenation of two symbolic sequences: a named array with its defining axiom
+            arr = fresh("concat", AII)
+            k = z3.Int("k!cc")
+            self.cx.axioms.append(z3.ForAll([k], arr[k] == z3.If(k < l.n, l.arr[k], r.arr[k - l.n]), patterns=[arr[k]]))
+            return SeqV(arr, l.n + r.n, l.elem)
         if isinstance(op, ast.Mult) and isinstance(l, PyConst) and isinstance(l.v, str):
             l, r = r, l
         if isinstance(op, ast.Mult) and isinstance(r, PyConst) and isinstance(r.v, str) and len(r.v) == 1:
